@@ -103,11 +103,15 @@ def steady(s, scenario, point=0):
     name alive twice, or a second endpoint of a kind, belongs to a connection that was abandoned"""
     loop = s.loop
     names = [t.get_name() for t in loop.tasks if not t.done() and t.get_name().startswith(FAMILY)]
-    extra = sorted({n for n in names if names.count(n) > 1})
+    extra = {n for n in names if names.count(n) > 1}
     kinds = ["LOC" if tr.kw.get("allow_broadcast") else "SPA" for tr in loop.transports if not tr.closed]
-    return {"kind": "steady", "scenario": scenario, "point": int(point * 1000), "extra_tasks": extra,
-            "extra_endpoints": max(0, kinds.count("SPA") - 1) + max(0, kinds.count("LOC") - 1),
-            "state": s.man.spa_state.name}
+    has_conn = s.man._spa is not None
+    if not has_conn:
+        # the manager holds no connection at all: whatever connection task or endpoint is alive was abandoned
+        extra |= {n for n in names if n.startswith(("SPA:", "FACADE:"))}
+    return {"kind": "steady", "scenario": scenario, "point": int(point * 1000), "extra_tasks": sorted(extra),
+            "extra_endpoints": max(0, kinds.count("SPA") - (1 if has_conn else 0)) + max(0, kinds.count("LOC") - 1),
+            "state": s.man.spa_state.name, "manager_has_connection": has_conn}
 
 
 def event_points():
@@ -136,9 +140,13 @@ def reset_in_first_pause(rng, which):
         loop.on_endpoint = on_endpoint
         s.enter()
         s.advance(60.0 + 60.0 * which)
-        if len(fired) < which:
+        if not fired:
             raise env.MachineryError("reset_in_first_pause: the connection endpoint was never opened")
-        return [steady(s, f"reset-in-first-handshake-pause-{which}", fired[which - 1])]
+        # (fewer endpoints than resets planned: the manager did not come back after an earlier one - that is C09's
+        # subject; what is alive is examined all the same)
+        rec = steady(s, f"reset-in-first-handshake-pause-{which}", fired[min(which, len(fired)) - 1])
+        rec["endpoints_opened"] = len(fired)
+        return [rec]
 
 
 def garbled_handshake(rng, n_bad, then_reset):
@@ -181,6 +189,10 @@ def own_resets(rng, kind):
         if kind == "client-in-rferr" and event.name == "ERROR_RF_ERROR" and pressed[0] == 0:
             pressed[0] = 1
             await man.async_reset()
+        if kind.endswith("-yielding") and event.name in ("RUNNING_SPA_DISCONNECTED", "CLIENT_FACADE_TEARDOWN"):
+            # a client handler that really suspends (one trip through the loop) while the reset is carried out by
+            # a task of the very connection that is being torn down
+            await asyncio.sleep(0)
 
     with AsyncSession(on_event=on_event, rank=rng.choice(["stable", "perm", "reverse"]), rank_seed=rng.random()) as s:
         loop, man = s.loop, s.man
@@ -200,7 +212,7 @@ def own_resets(rng, kind):
         if not s.wait_connected(60):
             raise env.MachineryError("own_resets: no connection")
         s.advance(3.0)
-        if kind == "recovery":
+        if kind.startswith("recovery"):
             s.net.blackhole = True
             s.advance(200.0)
             s.net.blackhole = False
@@ -352,6 +364,7 @@ def run(ctx):
         recs += exit_at(rng, p, yielding=True)
     recs += exit_at(rng, 14.0, blackout=True)
     recs += own_resets(rng, "recovery")
+    recs += own_resets(rng, "recovery-yielding")
     recs += own_resets(rng, "client-in-rferr")
     # the task-tidy period is a configuration constant: other values move the tidy pass relative
     # to task creation (reset and exit after a connection, for a sweep of periods)
